@@ -6,6 +6,7 @@
 //    (inputs / outputs / return value) in call order and delegates project/isSatisfied to the base class:
 //        F <x:n> <f:m>            Constraint::function(x, f)           (not recorded while inside a numerical jacobian)
 //        J <x:n>                  Constraint::jacobian(x, ·)           (recorded at entry)
+//        B                        entry of Constraint::project(x)
 //        P <xin:n> <ret> <xout:n> Constraint::project(x)               (recorded at exit, i.e. after its inner F/J events)
 //        S <x:n> <ret>            Constraint::isSatisfied(x)           (recorded at exit, after its inner F event)
 //  * RecValid : StateValidityChecker —   V <x:n> <ret>
@@ -218,6 +219,8 @@ struct RecCon : ob::Constraint
     bool project(Eigen::Ref<Eigen::VectorXd> x) const override
     {
         Eigen::VectorXd in = x;
+        if (g_rec && depth == 0)
+            evTok("B");
         bool r = ob::Constraint::project(x);
         if (g_rec && depth == 0)
         {
